@@ -32,6 +32,7 @@
 #include "upipe/uqueue.h"
 #include "upipe/uprobe.h"
 #include "upipe/uref.h"
+#include "upipe/uref_flow.h"
 #include "upipe/upump.h"
 #include "upipe/upipe_helper_upipe.h"
 #include "upipe/upipe_helper_urefcount.h"
@@ -222,6 +223,12 @@ static void upipe_qsink_input(struct upipe *upipe, struct uref *uref,
         else {
             upipe_qsink->flow_def_sent = true;
             upipe_qsink_input(upipe, flow_def, upump_p);
+            if (unlikely(!upipe_qsink->flow_def_sent)) {
+                /* the flow definition could not be queued: what follows
+                 * would be read with the previous one */
+                uref_free(uref);
+                return;
+            }
         }
     }
 
@@ -231,6 +238,10 @@ static void upipe_qsink_input(struct upipe *upipe, struct uref *uref,
     } else if (!upipe_qsink_output(upipe, uref, upump_p)) {
         if (!upipe_qsink_check_watcher(upipe)) {
             upipe_warn(upipe, "unable to spool uref");
+            const char *def;
+            if (unlikely(ubase_check(uref_flow_get_def(uref, &def))))
+                /* send the flow definition again before the next buffer */
+                upipe_qsink->flow_def_sent = false;
             uref_free(uref);
             return;
         }
